@@ -1,0 +1,81 @@
+//go:build verif
+
+// Contracts for contract-based deductive verification (govc, /verif).
+// This file contains comments only; it adds no code to the package.
+
+package auth
+
+//@ # ---- assumed contracts of the libraries this package calls (ledger) ----
+//@ ghost wallclock int
+//@ ghost lastclock int
+//@ ghost policyAnswer bool
+
+//@ spec func aeadNonce(g int) int
+//@ spec func aeadValid(g int, nonce Bytes, ct Bytes) bool
+//@ spec func aeadPlain(g int, nonce Bytes, ct Bytes) Bytes
+//@ spec func b64ok(s string) bool
+//@ spec func b64bytes(s string) Bytes
+//@ spec func jsonOK(d Bytes) bool
+//@ spec func jsonRole(d Bytes) string
+//@ spec func jsonExpiry(d Bytes) int
+//@ spec func policyAllows(role int, obj int, act int) bool
+
+//@ extern func time.Now
+//@   assigns ghost wallclock, ghost lastclock
+//@   ensures lastclock == old(wallclock) && wallclock >= old(wallclock) && result == wallclock
+
+//@ extern func (crypto/cipher.AEAD).NonceSize
+//@   ensures result == aeadNonce(ref(self)) && result >= 1 && result <= 1024
+//@   assigns nothing
+
+//@ # Open panics on a nonce of the wrong length; succeeds exactly on authentic input
+//@ extern func (crypto/cipher.AEAD).Open
+//@   requires nonce-length: len(nonce) == aeadNonce(ref(self))
+//@   ensures (result1 == nil) <==> aeadValid(ref(self), seq(nonce), seq(ciphertext))
+//@   ensures result1 == nil ==> seq(result0) == aeadPlain(ref(self), seq(nonce), seq(ciphertext))
+//@   ensures result1 != nil ==> result0 == nil
+//@   assigns nothing
+
+//@ extern func (*encoding/base64.Encoding).DecodeString
+//@   ensures (result1 == nil) <==> b64ok(s)
+//@   ensures result1 == nil ==> seq(result0) == b64bytes(s)
+//@   assigns nothing
+
+//@ extern func encoding/json.Unmarshal
+//@   assigns target(v)
+//@   ensures (result == nil) <==> jsonOK(seq(data))
+//@   ensures result == nil ==> deref(v).Role == jsonRole(seq(data)) && deref(v).Expiry == jsonExpiry(seq(data))
+
+//@ extern func (*github.com/casbin/casbin/v2.Enforcer).Enforce
+//@   assigns ghost policyAnswer
+//@   ensures policyAnswer == result0
+//@   ensures result0 ==> policyAllows(ref(rvals[0]), ref(rvals[1]), ref(rvals[2]))
+
+//@ # ---- the package's own functions -------------------------------------
+
+//@ func (encrypter).decrypt
+//@   property C35
+//@   requires e.gcm != nil
+//@   ensures authentic-only: result1 == nil ==> len(data) >= aeadNonce(ref(e.gcm)) && aeadValid(ref(e.gcm), seq(data[:aeadNonce(ref(e.gcm))]), seq(data[aeadNonce(ref(e.gcm)):]))
+//@   ensures plaintext: result1 == nil ==> seq(result0) == aeadPlain(ref(e.gcm), seq(data[:aeadNonce(ref(e.gcm))]), seq(data[aeadNonce(ref(e.gcm)):]))
+//@   assigns nothing
+
+//@ func (*Authenticator).Enforce
+//@   property C35
+//@   requires a.ciph != nil && a.ciph.gcm != nil && a.enforcer != nil && a.log != nil && !policyAnswer
+//@   ensures error-means-no: result1 != nil ==> !result0
+//@   ensures only-by-policy: result0 ==> policyAnswer
+//@   callassert Enforcer.Enforce from-token: b64ok(apiKey) && seq(decoded) == b64bytes(apiKey)
+//@   callassert Enforcer.Enforce authentic: aeadValid(ref(a.ciph.gcm), seq(decoded[:aeadNonce(ref(a.ciph.gcm))]), seq(decoded[aeadNonce(ref(a.ciph.gcm)):]))
+//@   callassert Enforcer.Enforce role-from-token: jsonOK(seq(decryptedBytes)) && ar.Role == jsonRole(seq(decryptedBytes)) && ar.Expiry == jsonExpiry(seq(decryptedBytes))
+//@   callassert Enforcer.Enforce not-expired: wallclock <= ar.Expiry
+
+//@ func (*Authenticator).RefreshKey
+//@   property C35
+//@   requires a.ciph != nil && a.ciph.gcm != nil
+//@   requires 0 - 1000000000 <= expiryDuration && expiryDuration <= 1000000000
+//@   ensures zero-duration-rejected: expiryDuration == 0 ==> result1 != nil
+//@   callassert Marshal authentic: b64ok(apiKey) && seq(decoded) == b64bytes(apiKey) && aeadValid(ref(a.ciph.gcm), seq(decoded[:aeadNonce(ref(a.ciph.gcm))]), seq(decoded[aeadNonce(ref(a.ciph.gcm)):]))
+//@   callassert Marshal role-kept: jsonOK(seq(decryptedBytes)) && dyn($v).Role == jsonRole(seq(decryptedBytes))
+//@   callassert Marshal not-expired: lastclock <= jsonExpiry(seq(decryptedBytes))
+//@   callassert Marshal new-expiry: dyn($v).Expiry == wallclock + expiryDuration * 1000000000
